@@ -19,8 +19,10 @@
 package main
 
 import (
+	"context"
 	"errors"
 	"fmt"
+	"log/slog"
 	"os"
 	"runtime"
 	"sort"
@@ -31,6 +33,7 @@ import (
 	"go.uber.org/multierr"
 	"go.uber.org/zap"
 	"go.uber.org/zap/buffer"
+	"go.uber.org/zap/exp/zapslog"
 	"go.uber.org/zap/zapcore"
 	"go.uber.org/zap/zzverif/vsched"
 	"go.uber.org/zap/zzverif/vsync"
@@ -337,6 +340,19 @@ var ops = []op{
 	{"sinkerr", "sink write fails: the error is reported on the error output", func(e *env) {
 		e.get("X").Info("m-sinkerr", zap.Int("a", 1))
 	}},
+	{"corechk", "core used without a Logger: Check + Write on a core whose sink fails (no error output was configured for this entry)", func(e *env) {
+		core := zapcore.NewCore(zapcore.NewJSONEncoder(jsonCfg()), &recSink{e: e, label: "K", fail: true}, zap.DebugLevel)
+		if ce := core.Check(fixedEntry(e, "m-corechk"), nil); ce != nil {
+			ce.Write(zap.Int("a", 1))
+		}
+	}},
+	{"slog", "zapslog handler: record with group attributes at error level (stack attached)", func(e *env) {
+		core := zapcore.NewCore(zapcore.NewJSONEncoder(jsonCfg()), e.sink("L"), zap.DebugLevel)
+		h := zapslog.NewHandler(core, zapslog.WithCaller(true)).WithGroup("g").WithAttrs([]slog.Attr{slog.Int("wa", 1)})
+		r := slog.NewRecord(e.clock.T, slog.LevelError, "m-slog", 0)
+		r.AddAttrs(slog.Group("grp", slog.String("s", "v"), slog.Any("any", pair{4, "s"})), slog.Any("err", e1))
+		_ = h.Handle(context.Background(), r)
+	}},
 	{"smp", "sampled logger", func(e *env) { e.get("Smp").Info("m-smp", zap.Int("a", 1)) }},
 }
 
@@ -404,36 +420,57 @@ func poison() {
 // references: output of each op as the first call after a pool reset
 
 var refSeq, refConc []string
+var refVio *mc.Violation
 
-func computeRefs() {
+// computeRefs runs every operation alone, as the first call after a pool
+// reset (twice, to be sure the output is a function of the call). An
+// operation whose very first call panics or shows released memory is already
+// a violation of the property (item ref|<op>).
+func computeRefs() *mc.Violation {
 	if refSeq != nil {
-		return
+		return refVio
 	}
 	refSeq = make([]string, len(ops))
 	refConc = make([]string, len(ops))
 	for k := range ops {
-		for round := 0; round < 2; round++ {
-			var got, gotc string
-			var o1 []string
-			o2 := make([][]string, 1)
-			res := vsched.Run(nil, seqBody([]int{k}, &o1))
-			if res.Verdict != vsched.OK {
-				panic(mc.ToolErr{Msg: fmt.Sprintf("reference run of %s: verdict %d %v", ops[k].name, res.Verdict, res.PanicVal)})
-			}
-			res = vsched.Run(nil, concBody([][]int{{k}}, o2))
-			if res.Verdict != vsched.OK {
-				panic(mc.ToolErr{Msg: fmt.Sprintf("reference run (thread) of %s: verdict %d %v", ops[k].name, res.Verdict, res.PanicVal)})
-			}
-			got, gotc = o1[0], o2[0][0]
-			if round == 1 && (got != refSeq[k] || gotc != refConc[k]) {
-				panic(mc.ToolErr{Msg: "reference output of " + ops[k].name + " is not deterministic"})
-			}
-			refSeq[k], refConc[k] = got, gotc
-		}
-		if strings.Contains(refSeq[k], "\xDB") {
-			panic(mc.ToolErr{Msg: "reference output of " + ops[k].name + " contains poison"})
+		if v := refOne(k); v != nil && refVio == nil {
+			refVio = v
 		}
 	}
+	return refVio
+}
+
+func refOne(k int) *mc.Violation {
+	bad := func(format string, a ...any) *mc.Violation {
+		return &mc.Violation{Item: "ref|" + ops[k].name, Kind: "oracle", Detail: fmt.Sprintf("operation %s (%s) run alone, first after a pool reset: ", ops[k].name, ops[k].doc) + fmt.Sprintf(format, a...), Choices: []int{}}
+	}
+	for round := 0; round < 2; round++ {
+		var o1 []string
+		o2 := make([][]string, 1)
+		res := vsched.Run(nil, seqBody([]int{k}, &o1))
+		if res.Verdict == vsched.Panicked {
+			return bad("panicked: %v", res.PanicVal)
+		}
+		if res.Verdict != vsched.OK {
+			panic(mc.ToolErr{Msg: fmt.Sprintf("reference run of %s: verdict %d", ops[k].name, res.Verdict)})
+		}
+		res = vsched.Run(nil, concBody([][]int{{k}}, o2))
+		if res.Verdict == vsched.Panicked {
+			return bad("panicked: %v", res.PanicVal)
+		}
+		if res.Verdict != vsched.OK {
+			panic(mc.ToolErr{Msg: fmt.Sprintf("reference run (thread) of %s: verdict %d", ops[k].name, res.Verdict)})
+		}
+		got, gotc := o1[0], o2[0][0]
+		if round == 1 && (got != refSeq[k] || gotc != refConc[k]) {
+			return bad("two identical first calls produced different output; %s", diffAt(got, refSeq[k]))
+		}
+		refSeq[k], refConc[k] = got, gotc
+	}
+	if i := strings.Index(refSeq[k], "\xDB"); i >= 0 {
+		return bad("the output contains bytes of a released (poisoned) pool object; %s", diffAt(refSeq[k], refSeq[k][:i]))
+	}
+	return nil
 }
 
 func parseSeq(s string) []int {
@@ -551,11 +588,19 @@ func merge(dst *mc.Stats, st mc.Stats) {
 //   seq|<dev>|<prefix ops a.b>|<L>     every history prefix+suffix of total length L (suffix over the whole alphabet)
 //   one|<dev>|<a.b.c>                  exactly one history (replays)
 //   conc|<pre>|<dev>|<a.b;c;d>         threads
+//   ref|<op>                           the first-call reference runs themselves
 func handler(item string, replay []int, isReplay bool, journal func([]int)) mc.ItemResult {
 	poison()
 	vsched.PoolChoices = true
-	computeRefs()
 	f := strings.Split(item, "|")
+	if f[0] == "ref" {
+		refSeq = nil
+		refVio = nil
+		return mc.ItemResult{Item: item, Violation: computeRefs()}
+	}
+	if v := computeRefs(); v != nil {
+		return mc.ItemResult{Item: item, Violation: v}
+	}
 	switch f[0] {
 	case "one":
 		dev, _ := strconv.Atoi(f[1])
